@@ -17,7 +17,7 @@ func runC18(c *Ctx) {
 		maxLines, depth = 3, 3
 	}
 	c.Exhaustive = true
-	c.Rule = fmt.Sprintf("all policy files of <= %d lines over a 10-line universe (p and g rules, padded fields, a comment, a blank, a quoted field, a rule of the wrong arity which makes every load that keeps it fail) x all sequences of depth <= %d over {LoadFilteredPolicy, LoadIncrementalFilteredPolicy with 9 filters (per type, empty = wildcard, nil, longer than the rule, blank-padded values) and a value of the wrong type, LoadPolicy, SavePolicy, AddPolicy} on the real FilteredAdapter with real temp files: result, IsFiltered, listed rules, links, decisions and the file bytes after every call are compared with the Lean model; the same loads through SyncedEnforcer and through a DistributedEnforcer with a dispatcher must give what the plain enforcer gives (all sequences of <= 3 of 6 loads); on the implementation: a filtered load lists exactly the full load's rules whose leading fields equal the filter's non-empty values, decisions equal those of a fresh enforcer given the subset, SavePolicy while filtered is refused and leaves the file bytes unchanged, SavePolicy never succeeds while the enforcer may hold a partial view (a filtered load, completed or failed, since the last successful full load); non-trivial = a sequence with a filtered load that kept some and dropped some rules; distinct = (file, sequence)", maxLines, depth)
+	c.Rule = fmt.Sprintf("all policy files of <= %d lines over a 10-line universe (p and g rules, padded fields, a comment, a blank, a quoted field, a rule of the wrong arity which makes every load that keeps it fail) x all sequences of depth <= %d over {LoadFilteredPolicy, LoadIncrementalFilteredPolicy with 10 filters (per type, empty = wildcard, nil, longer than the rule, blank-padded values) and a value of the wrong type, LoadPolicy, SavePolicy, AddPolicy} on the real FilteredAdapter with real temp files: result, IsFiltered, listed rules, links, decisions and the file bytes after every call are compared with the Lean model; the same loads through SyncedEnforcer and through a DistributedEnforcer with a dispatcher must give what the plain enforcer gives (all sequences of <= 3 of 6 loads); on the implementation: a filtered load lists exactly the full load's rules whose leading fields equal the filter's non-empty values, decisions equal those of a fresh enforcer given the subset, SavePolicy while filtered is refused and leaves the file bytes unchanged, SavePolicy never succeeds while the enforcer may hold a partial view (a filtered load, completed or failed, since the last successful full load); non-trivial = a sequence with a filtered load that kept some and dropped some rules; distinct = (file, sequence)", maxLines, depth)
 	lineUniverse := []string{"p, alice, data1, read", "p, bob, data2, write", "p,alice ,  data2,write", "g, alice, admin", "g, bob, admin",
 		"p, admin, data1, read", "# comment", "", "p, \"alice\", data3, read", "p, carol, data1"}
 	filters := []struct {
@@ -33,6 +33,8 @@ func runC18(c *Ctx) {
 		{&fileadapter.Filter{G: []string{"", "admin"}}, false},
 		{&fileadapter.Filter{P: []string{"alice", "", "", ""}}, false},
 		{&fileadapter.Filter{P: []string{"nobody"}, G: []string{"nobody"}}, false},
+		// only the last value is set: a line one field short must be skipped, not indexed past its end
+		{&fileadapter.Filter{P: []string{"", "", "read"}, G: []string{"", "admin"}}, false},
 	}
 	c18Wrappers(c)
 	var alpha []EOp
